@@ -1363,7 +1363,7 @@ class BaseParser:
             p0.vararg = vararg
             self._set_args_def(p0, kwargs, kwargs=True)
         else:
-            raise AssertionError()
+            self._set_error("named arguments must follow bare *")
 
     def p_varargslist_kwargs(self, p):
         """varargslist : POW vfpdef comma_opt"""
